@@ -305,7 +305,7 @@ def _chunk(args):
     for ln in lines:
         t = json.loads(ln)
         t["base_refs"] = base_refs
-        check_case(col, t, seed, algs, kind)
+        core.guarded(col, lambda: check_case(col, t, seed, algs, kind), f"{kind}", f"case {t}"[:600], {"transition": t, "seed": seed, "kind": kind})
         col.traces += 1
     return col
 
